@@ -456,7 +456,8 @@ Lemma read_back_nwk_fc : forall v st r, read_back v st = Some r -> nwk_key_fc r 
 Proof.
   intros v st r H. unfold read_back in H.
   destruct (n_params st) as [p|]; [|discriminate H]. destruct (n_sec st) as [s|]; [|discriminate H].
-  injection H as H. subst r. reflexivity.
+  assert (E : option_map nwk_key_fc (Some r) = Some (n_nwk_fc st)) by (rewrite <- H; reflexivity).
+  cbn [option_map] in E. injection E as E. exact E.
 Qed.
 
 Lemma stale_counter_v4 : forall key_size pn pa ni rh r,
